@@ -3,7 +3,7 @@ from __future__ import annotations
 
 import ast
 
-from ..core import AnalysisError, Report, call_name, dotted, unparse
+from ..core import FuncInfo, AnalysisError, Report, call_name, dotted, unparse
 from ..ctx import Ctx
 from .util import cguards, enclosing
 
@@ -32,6 +32,7 @@ VALIDATION_NAMES = {"ValidationError", "Exception", "ValueError", ""}
 
 
 def check(rep: Report, ctx: Ctx) -> None:
+    r1311(rep, ctx)
     rep.rule("R13.1", "per-record skip", 3)
     fi = ctx.func("JSONDataSource.parse_json_stream")
     ctors = [c for c in ast.walk(fi.node) if isinstance(c, ast.Call)
@@ -493,3 +494,124 @@ def r139(rep: Report, ctx: Ctx) -> None:
     if checked < 2:
         raise AnalysisError("json_config: no Iterable-annotated parameters "
                             "found")
+
+
+# --------------------------------------------------------------------------
+_SEQ = {"Sequence", "Iterable", "list", "tuple", "Iterator", "Collection",
+        "List", "Tuple", "set", "frozenset", "Set", "MutableSequence"}
+
+
+def _union_members(a: ast.AST) -> list[ast.AST]:
+    if isinstance(a, ast.BinOp) and isinstance(a.op, ast.BitOr):
+        return _union_members(a.left) + _union_members(a.right)
+    if isinstance(a, ast.Subscript) and isinstance(a.value, ast.Name) \
+            and a.value.id in ("Union", "Optional"):
+        sl = a.slice
+        els = sl.elts if isinstance(sl, ast.Tuple) else [sl]
+        out = []
+        for e in els:
+            out += _union_members(e)
+        return out
+    if isinstance(a, ast.Constant) and isinstance(a.value, str):
+        try:
+            return _union_members(ast.parse(a.value, mode="eval").body)
+        except SyntaxError:
+            return [a]
+    return [a]
+
+
+def str_or_sequence_params(fi: FuncInfo) -> list[str]:
+    """Parameters whose annotation admits a bare ``str`` AND a sequence."""
+    out = []
+    for arg in fi.node.args.args + fi.node.args.kwonlyargs:
+        if arg.annotation is None:
+            continue
+        ms = _union_members(arg.annotation)
+        has_str = any(isinstance(m, ast.Name) and m.id == "str" for m in ms)
+        has_seq = any(isinstance(m, ast.Subscript) and isinstance(
+            m.value, ast.Name) and m.value.id in _SEQ for m in ms) or any(
+            isinstance(m, ast.Name) and m.id in _SEQ for m in ms)
+        if has_str and has_seq:
+            out.append(arg.arg)
+    return out
+
+
+def _is_str_test(t: ast.AST, name: str) -> bool:
+    return isinstance(t, ast.Call) and call_name(t) == "isinstance" and \
+        len(t.args) == 2 and isinstance(t.args[0], ast.Name) and \
+        t.args[0].id == name and "str" in {
+            n.id for n in ast.walk(t.args[1]) if isinstance(n, ast.Name)}
+
+
+def r1311(rep: Report, ctx: Ctx) -> None:
+    """The documented mapping forms allow a bare string wherever a list of
+    alternatives is allowed (`key_paths: a.b`, `key_value: service.name`).
+    A string is a sequence of its characters: a normaliser that traverses
+    the value before it has dealt with the string case turns `service.name`
+    into the alternatives 's', 'e', 'r', ... - every validation still
+    passes and every record loses the field (seed C13-z).  Rule, for every
+    parameter of the mapping normalisers whose annotation admits both `str`
+    and a sequence: each traversal of the parameter (for / comprehension /
+    zip / enumerate / iter / tuple / list / len / subscript) happens where
+    the value cannot be a string any more - after `if isinstance(p, str):
+    p = [p]`, in the else-arm of that test, or behind a guard clause that
+    leaves for strings."""
+    rep.rule("R13.11", "a mapping value that may be a bare string is not "
+             "traversed as a sequence of characters", 4)
+    n = 0
+    for fi in ctx.index.all_functions():
+        if "json_data_source" not in fi.module.relpath:
+            continue
+        for p in str_or_sequence_params(fi):
+            rep.funcs_seen.add(fi.qualname)
+            cfg = ctx.cfg(fi)
+            uses: list[ast.AST] = []
+            for x in ast.walk(fi.node):
+                its: list[ast.AST] = []
+                if isinstance(x, ast.For):
+                    its = [x.iter]
+                elif isinstance(x, ast.comprehension):
+                    its = [x.iter]
+                elif isinstance(x, ast.Call) and call_name(x) in (
+                        "zip", "enumerate", "iter", "tuple", "list", "len",
+                        "set", "sorted", "reversed", "map", "filter"):
+                    its = list(x.args)
+                elif isinstance(x, ast.Subscript):
+                    its = [x.value]
+                elif isinstance(x, ast.Starred):
+                    its = [x.value]
+                for it in its:
+                    if isinstance(it, ast.Name) and it.id == p:
+                        uses.append(x if not isinstance(
+                            x, ast.comprehension) else it)
+            # wraps: `if isinstance(p, str): p = <not p>` statements
+            wraps = [st for st in ast.walk(fi.node) if isinstance(st, ast.If)
+                     and _is_str_test(st.test, p) and any(
+                         isinstance(a, ast.Assign) and any(
+                             isinstance(t, ast.Name) and t.id == p
+                             for t in a.targets) for a in st.body)
+                     and not st.orelse]
+            bad = []
+            for u in uses:
+                nid = cfg.node(u) if cfg.has(u) else cfg.container(u)
+                if nid is None:
+                    raise AnalysisError(f"{fi.qualname}: no CFG node for a "
+                                        f"traversal of '{p}'")
+                guarded = any(_is_str_test(t, p) and not sense
+                              for t, sense in cfg.controlling(nid))
+                wrapped = any(cfg.has(w) and cfg.dominates(cfg.node(w), nid)
+                              and cfg.node(w) != nid for w in wraps)
+                if not (guarded or wrapped):
+                    bad.append(u)
+            n += 1
+            rep.ob("R13.11", f"{fi.short}({p}): traversed only where it is "
+                   "not a string", not bad, fi=fi,
+                   node=bad[0] if bad else fi.node,
+                   detail=(f"{len(uses)} traversal(s), each behind the "
+                           "string case" if not bad else
+                           f"'{unparse(bad[0])[:60]}' runs although '{p}' "
+                           "may still be a bare string: its characters "
+                           "become the alternatives"))
+    if n == 0:
+        raise AnalysisError("no str-or-sequence parameter found in the "
+                            "mapping normalisers")
